@@ -25,6 +25,8 @@ pub enum Kind {
     W24,
     Tracked,
     Zst,
+    Big72,
+    Al32,
 }
 
 #[derive(Clone, Copy, Debug, Serialize, Deserialize, PartialEq, Eq, Hash)]
@@ -251,16 +253,16 @@ where
 macro_rules! singles {
     ($n:expr, $N:ident, $body:expr) => {
         len_match!($n, $N, $body, [0: U0, 1: U1, 2: U2, 3: U3, 4: U4, 5: U5, 6: U6, 7: U7, 8: U8, 9: U9, 10: U10, 11: U11, 12: U12,
-            15: U15, 16: U16, 17: U17, 31: U31, 32: U32, 33: U33, 63: U63, 64: U64, 255: U255, 256: U256, 1023: U1023, 1024: U1024])
+            15: U15, 16: U16, 17: U17, 31: U31, 32: U32, 33: U33, 63: U63, 64: U64, 255: U255, 256: U256, 1023: U1023, 1024: U1024, 2048: U2048, 4096: U4096, 4097: U4097x, 8192: U8192, 10000: U10000])
     };
 }
 macro_rules! singles_pos {
     ($n:expr, $N:ident, $body:expr) => {
         len_match!($n, $N, $body, [1: U1, 2: U2, 3: U3, 4: U4, 5: U5, 6: U6, 7: U7, 8: U8, 9: U9, 10: U10, 11: U11, 12: U12,
-            15: U15, 16: U16, 17: U17, 31: U31, 32: U32, 33: U33, 63: U63, 64: U64, 255: U255, 256: U256, 1023: U1023, 1024: U1024])
+            15: U15, 16: U16, 17: U17, 31: U31, 32: U32, 33: U33, 63: U63, 64: U64, 255: U255, 256: U256, 1023: U1023, 1024: U1024, 2048: U2048, 4096: U4096, 4097: U4097x, 8192: U8192, 10000: U10000])
     };
 }
-const SINGLES: &[usize] = &[0, 1, 2, 3, 4, 5, 6, 7, 8, 9, 10, 11, 12, 15, 16, 17, 31, 32, 33, 63, 64, 255, 256, 1023, 1024];
+const SINGLES: &[usize] = &[0, 1, 2, 3, 4, 5, 6, 7, 8, 9, 10, 11, 12, 15, 16, 17, 31, 32, 33, 63, 64, 255, 256, 1023, 1024, 2048, 4096, 4097, 8192, 10000];
 
 fn exec_typed<T: Elem>(case: &Case, acc: &mut Acc) -> Result<(), String> {
     registry::reset();
@@ -288,7 +290,7 @@ fn exec_typed<T: Elem>(case: &Case, acc: &mut Acc) -> Result<(), String> {
     }
     engine::end_case(false)?;
     let oob = matches!(case.op, Op::Remove(n, i) | Op::SwapRemove(n, i) if i >= n);
-    acc.count(zero_operand || oob || matches!(case.kind, Kind::Unit | Kind::Tracked | Kind::Zst), case);
+    acc.count(zero_operand || oob || matches!(case.kind, Kind::Unit | Kind::Tracked | Kind::Zst | Kind::Big72 | Kind::Al32), case);
     if zero_operand {
         acc.class("zero_length_operand_or_edge_pivot");
     }
@@ -307,6 +309,8 @@ pub fn exec(case: &Case, acc: &mut Acc) -> Result<(), String> {
         Kind::W24 => exec_typed::<[u64; 3]>(case, acc),
         Kind::Tracked => exec_typed::<Tracked>(case, acc),
         Kind::Zst => exec_typed::<TrackedZst>(case, acc),
+        Kind::Big72 => exec_typed::<harness::registry::Big72>(case, acc),
+        Kind::Al32 => exec_typed::<harness::registry::Al32>(case, acc),
     }
 }
 
@@ -319,7 +323,7 @@ fn grid(draws: u32, seed: u64) -> Vec<Case> {
         x ^= x << 17;
         (x >> 24) as u32 & 0xfffff
     };
-    for kind in [Kind::Unit, Kind::U8, Kind::U64, Kind::W24, Kind::Tracked, Kind::Zst] {
+    for kind in [Kind::Unit, Kind::U8, Kind::U64, Kind::W24, Kind::Tracked, Kind::Zst, Kind::Big72, Kind::Al32] {
         let mut ops = vec![];
         for &(n, k) in SPLIT_PAIRS {
             for f in 0..3 {
@@ -333,7 +337,7 @@ fn grid(draws: u32, seed: u64) -> Vec<Case> {
             ops.push(Op::Lengthen(n));
             if n >= 1 {
                 ops.push(Op::Shorten(n));
-                let idxs: Vec<usize> = if n <= 12 { (0..=n + 1).collect() } else { vec![0, 1, n / 2, n - 2, n - 1, n, n + 1] };
+                let idxs: Vec<usize> = if n <= 12 { (0..=n + 1).collect() } else { vec![0, 1, 2, n / 4, n / 2 - 1, n / 2, n / 2 + 1, 3 * n / 4, n - 2, n - 1, n, n + 1] };
                 for i in idxs.into_iter().chain([usize::MAX]) {
                     ops.push(Op::Remove(n, i));
                     ops.push(Op::SwapRemove(n, i));
@@ -378,7 +382,7 @@ pub fn main() {
         Report {
             prop: PROP,
             level: "exploration",
-            rule: "type-level instantiation of every N in 0..=12 with every K <= N (split: owned, & and &mut forms), every (N, M) with N + M <= 12 (concat), 20 + 17 boundary pairs up to 1024, append/prepend/pop_back/pop_front on 25 lengths up to 1024, remove/swap_remove with every index 0..=N+1 and usize::MAX; element kinds of size 0, 1, 8 and 24 bytes, drop-tracked and zero-sized tracked; seeded values. \
+            rule: "type-level instantiation of every N in 0..=12 with every K <= N (split: owned, & and &mut forms), every (N, M) with N + M <= 12 (concat), 20 + 17 boundary pairs up to 1024, append/prepend/pop_back/pop_front on 25 lengths up to 1024, remove/swap_remove with every index 0..=N+1 and usize::MAX; element kinds of size 0, 1, 8, 24 and 72 bytes, 32-byte-aligned, drop-tracked and zero-sized tracked; seeded values. \
                    Oracle: a Vec with the same contents (push, insert(0), pop, remove(0), split_at, extend, remove, swap_remove) - elements, order, identities of tracked elements and the removed value; out-of-range indices must panic with every element dropped exactly once; by-reference split halves must be at byte offsets 0 and K*size_of::<T>() of the source with lengths K and N-K, and writes through the &mut halves must land in the source. \
                    non-trivial = a zero-length operand / edge pivot, an out-of-range index, or a zero-sized or drop-tracked element kind; distinct = distinct (kind, operation instance, values)",
             exhaustive: false,
